@@ -24,8 +24,9 @@ const REVISION_OFFSET: usize = SIGNATURE_LENGTH; // 10
 /// rather than as a scatter-gather vector. Above this threshold the vectored path avoids
 /// copying large payloads for io-uring zero-copy writes.
 const FLAT_THRESHOLD: usize = 16 * 1024; // 16 KiB
-/// Maximum number of frames a `FrameBatch` (one logical message) can hold.
-const MAX_FRAMES_PER_MESSAGE: usize = 255;
+/// Maximum number of frames accepted in one inbound logical message. A `FrameBatch` holds 255;
+/// one slot is left for the identity frame a ROUTER prepends on delivery.
+const MAX_FRAMES_PER_MESSAGE: usize = 254;
 /// Greeting byte index of the ZMTP/2.0 socket-type code.
 const V2_SOCKET_TYPE_OFFSET: usize = SIGNATURE_LENGTH + 1; // 11
 /// Total length of a ZMTP/2.0 greeting header: signature + revision + socket-type.
